@@ -138,7 +138,7 @@ theorem accept_inv_reachable (ds : List Delivery) :
   have := run_acceptInv ds fresh acceptInv_fresh r hr
   split at this <;> omega
 
-example : (run fresh [.startTask true false, .result 0 .ok 5, .result 0 .error 6, .expiry,
+example : (run fresh [.startTask true false false, .result 0 .ok 5, .result 0 .error 6, .expiry,
                       .result 0 .ok 5]).actions = [⟨.success, true, 5, 1⟩] := by decide
 
 /-! ## The engine: heartbeat expiry racing the genuine result -/
@@ -245,57 +245,158 @@ example : (run { state := .running, actions := [newAction], dispatched := 1, com
 /-- "the same start-task request ... more than once" (first_run=True, the request created for a
     new task): after the first delivery, and after ANY further sequence of deliveries, delivering
     it again changes nothing — no second action execution, no second run_action request. -/
-theorem dup_start_task_noop (t : Task) (r : Bool) (ds : List Delivery) (r' : Bool) :
-    let t' := run (step t (.startTask true r)) ds
-    step t' (.startTask true r') = t' ∧ verdict t' (.startTask true r') = .noop := by
+theorem dup_start_task_noop (t : Task) (r x : Bool) (ds : List Delivery) (r' x' : Bool) :
+    let t' := run (step t (.startTask true r x)) ds
+    step t' (.startTask true r' x') = t' ∧ verdict t' (.startTask true r' x') = .noop := by
   intro t'
-  have h1 : (step t (.startTask true r)).state ≠ .idle := runNew_ne_idle t
+  have h1 : (step t (.startTask true r x)).state ≠ .idle := runNew_ne_idle t
   have h' : t'.state ≠ .idle := run_ne_idle ds _ h1
   simp [step, verdict, runNew, h']
 
-example : step fresh (.startTask true false) =
+example : step fresh (.startTask true false false) =
       { state := .running, actions := [newAction], dispatched := 1, completions := 0 } ∧
-    step (step fresh (.startTask true false)) (.startTask true false) =
-      step fresh (.startTask true false) := by decide
+    step (step fresh (.startTask true false false)) (.startTask true false false) =
+      step fresh (.startTask true false false) := by decide
 
-/-- The start-task request of an EXISTING task (first_run=False: rerun of a failed task, or an IDLE
-    task continued on resume), duplicate arriving while the action of the first delivery is in
-    progress (repo fix 258aaaae: `_run_existing` returns for a RUNNING task with an uncompleted
-    execution): after the first delivery the task is RUNNING with a running action execution ... -/
-theorem rerun_start_in_progress (t : Task) (reset : Bool) (h : t.state ≠ .success) :
-    inProgress (step t (.startTask false reset)) = true := by
-  simp only [step, runExisting, h, if_false]
+/-! ### requests to run an EXISTING task (first_run=False)
+
+Two senders: `Workflow.resume` re-queues `start_task(first_run=False, rerun=False)` for every task that
+is still IDLE (the original first_run=True request of that task may still be in flight), and
+`rerun_workflow` sends `start_task(first_run=False, rerun=True)` for a failed task. -/
+
+/-- Invariant (init) behind the next theorems: a fresh task is IDLE. -/
+theorem start_inv_init : StartInv fresh := startInv_fresh
+
+/-- Invariant (step): "IDLE, or RUNNING with a live action execution, or completed" is preserved by EVERY
+    delivery — there is no reachable state in which a task is RUNNING without a live action execution
+    (an accepted result completes the task in the same transaction) or IDLE again after it left IDLE. -/
+theorem start_inv_step (t : Task) (d : Delivery) (h : StartInv t) : StartInv (step t d) :=
+  step_startInv t d h
+
+/-- Invariant (reachable): every state reachable from a fresh task by ANY deliveries (duplicates,
+    expiries, explicit reruns included) is IDLE, RUNNING with a live action execution, or completed. -/
+theorem start_inv_reachable (ds : List Delivery) :
+    (run fresh ds).state = .idle ∨ inProgress (run fresh ds) = true ∨
+      (run fresh ds).state.completed = true :=
+  run_startInv ds fresh startInv_fresh
+
+example : inProgress (run fresh [.startTask false false true, .expiry, .startTask false true false]) = true ∧
+    (run fresh [.startTask false false true, .expiry, .startTask false true false]).dispatched = 2 := by
+  decide
+
+/-- "the same start-task request ... more than once", for the request re-queued on resume
+    (first_run=False, rerun=False; repo fix 17f326b9): after the first delivery — from ANY task state,
+    even one the engine cannot produce — and after ANY further sequence of deliveries (results,
+    expiries, start requests of every kind, explicit reruns, in any order and multiplicity),
+    delivering it again (any reset flag) changes NOTHING: no state change, no un-accepted result, no
+    second action execution, no second run_action request; the request is ignored (no-op) or refused
+    (SUCCESS task, rolled back).  "Later" needs no side condition: the first copy makes the task leave
+    IDLE, afterwards it is RUNNING with a live action (guard of 258aaaae) or completed (guard of
+    17f326b9), and both are stable (`start_inv_step`). -/
+theorem dup_run_existing_noop (t : Task) (reset : Bool) (ds : List Delivery) (reset' : Bool) :
+    let t' := run (step t (.startTask false false reset)) ds
+    step t' (.startTask false false reset') = t' ∧
+    (verdict t' (.startTask false false reset') = .noop ∨
+     verdict t' (.startTask false false reset') = .refused) := by
+  intro t'
+  have h1 : Started (step t (.startTask false false reset)) := runExisting_started t false reset
+  have h' : Started t' := run_started ds _ h1
+  exact runExisting_of_started t' reset' h'
+
+/-- non-vacuity: the first copy starts the IDLE task, its action FAILS, then the copy arrives: nothing
+    happens (before 17f326b9 this ran the failed task a second time) -/
+example : (run fresh [.startTask false false true]).dispatched = 1 ∧
+    run fresh [.startTask false false true, .result 0 .error 4, .startTask false false true] =
+      run fresh [.startTask false false true, .result 0 .error 4] ∧
+    (run fresh [.startTask false false true, .result 0 .error 4]).state = .error := by decide
+
+/-- The original first_run=True request and the request re-queued on resume are two requests to start
+    the same IDLE task, delivered in either order: once the task is started (by whichever came first,
+    or in any other way), EVERY start request that is not an explicit rerun — first_run=True with any
+    flags, or first_run=False with rerun=False — is a no-op at any later point. -/
+theorem started_start_requests_noop (t1 : Task) (h : Started t1) (ds : List Delivery)
+    (fr rerun reset : Bool) (hr : fr = false → rerun = false) :
+    step (run t1 ds) (.startTask fr rerun reset) = run t1 ds := by
+  have h' : Started (run t1 ds) := run_started ds t1 h
+  cases fr with
+  | false => rw [hr rfl]; exact (runExisting_of_started _ reset h').1
+  | true =>
+    have : (run t1 ds).state ≠ .idle := started_ne_idle h'
+    simp [step, runNew, this]
+
+example : Started (step fresh (.startTask true false false)) :=
+  Or.inl (by decide)
+
+/-- ... and for a task that has no action execution yet (the IDLE task as `create_new` made it) the two
+    requests do the same thing, so the run does not depend on which of them arrives first, whatever is
+    delivered in between and wherever the second one arrives: both orders equal the single delivery. -/
+theorem first_run_and_resume_any_order (ds : List Delivery) (r x reset : Bool) :
+    step fresh (.startTask true r x) = step fresh (.startTask false false reset) ∧
+    run fresh (.startTask true r x :: ds ++ [.startTask false false reset]) =
+      run fresh (.startTask true r x :: ds) ∧
+    run fresh (.startTask false false reset :: ds ++ [.startTask true r x]) =
+      run fresh (.startTask true r x :: ds) := by
+  have e : step fresh (.startTask true r x) = step fresh (.startTask false false reset) := by
+    cases reset <;> rfl
+  have hs : Started (step fresh (.startTask true r x)) := Or.inl (by rfl)
+  refine ⟨e, ?_, ?_⟩
+  · show run (step fresh (.startTask true r x)) (ds ++ [.startTask false false reset]) = _
+    rw [run_append]
+    exact started_start_requests_noop _ hs ds false false reset (fun _ => rfl)
+  · show run (step fresh (.startTask false false reset)) (ds ++ [.startTask true r x]) =
+      run (step fresh (.startTask true r x)) ds
+    rw [run_append, ← e]
+    exact started_start_requests_noop _ hs ds true r x (fun h => by cases h)
+
+example : run fresh [.startTask false false true, .result 0 .error 4, .startTask true false false] =
+    run fresh [.startTask true false false, .result 0 .error 4, .startTask false false true] := by decide
+
+/-- The start-task request of an EXISTING task, duplicate arriving while the action of the first
+    delivery is in progress (repo fix 258aaaae: `_run_existing` returns for a RUNNING task with an
+    uncompleted execution): after the first delivery of a request that is let through (the task has
+    not SUCCEEDED; a completed task only for an explicit rerun) the task is RUNNING with a running
+    action execution ... -/
+theorem rerun_start_in_progress (t : Task) (rerun reset : Bool) (h : t.state ≠ .success)
+    (hr : t.state.completed = true → rerun = true) :
+    inProgress (step t (.startTask false rerun reset)) = true := by
+  have hc : (t.state.completed && !rerun) = false := by
+    cases hcc : t.state.completed with
+    | false => rfl
+    | true => simp [hr hcc]
+  simp only [step, runExisting, h, hc, if_false, Bool.false_eq_true]
   split
   · assumption
-  · simp [inProgress, scheduleAction, hasRunningAction, newAction, AState.completed]
+  · exact scheduleAction_inProgress _ rfl
 
-/-- ... and in that situation a further delivery of the request (any reset flag) changes nothing:
+/-- ... and in that situation a further delivery of the request (any flags) changes nothing:
     no second action execution, no second run_action request. -/
-theorem dup_start_task_rerun_in_progress_noop (t' : Task) (reset : Bool) (h : inProgress t' = true) :
-    step t' (.startTask false reset) = t' ∧ verdict t' (.startTask false reset) = .noop := by
-  have hs : t'.state ≠ .success := by
-    intro e
-    simp [inProgress, e] at h
-  simp [step, verdict, runExisting, hs, h]
+theorem dup_start_task_rerun_in_progress_noop (t' : Task) (rerun reset : Bool)
+    (h : inProgress t' = true) :
+    step t' (.startTask false rerun reset) = t' ∧ verdict t' (.startTask false rerun reset) = .noop := by
+  have hs : t'.state = .running := by
+    simp [inProgress] at h
+    exact h.1
+  simp [step, verdict, runExisting, hs, h, TState.completed]
 
-/-- "the same start-task request ... more than once" for first_run=False, the duplicates arriving
-    while the action of the first delivery is in progress: after the first delivery, ANY number of
-    further start requests (of either kind, any flags) leave the task exactly as the single delivery
-    left it — at most one action dispatched per rerun request. -/
-theorem dup_start_task_rerun_noop (t : Task) (reset : Bool) (ds : List Delivery)
-    (h : t.state ≠ .success) (hds : ∀ d ∈ ds, d.isStart = true) :
-    run (step t (.startTask false reset)) ds = step t (.startTask false reset) := by
-  have h1 := rerun_start_in_progress t reset h
-  generalize step t (.startTask false reset) = t1 at h1
+/-- "the same start-task request ... more than once" for first_run=False (explicit reruns included), the
+    duplicates arriving while the action of the first delivery is in progress: after the first
+    delivery, ANY number of further start requests (of either kind, any flags) leave the task exactly as
+    the single delivery left it — at most one action dispatched per rerun request. -/
+theorem dup_start_task_rerun_noop (t : Task) (rerun reset : Bool) (ds : List Delivery)
+    (h : t.state ≠ .success) (hr : t.state.completed = true → rerun = true)
+    (hds : ∀ d ∈ ds, d.isStart = true) :
+    run (step t (.startTask false rerun reset)) ds = step t (.startTask false rerun reset) := by
+  have h1 := rerun_start_in_progress t rerun reset h hr
+  generalize step t (.startTask false rerun reset) = t1 at h1
   induction ds with
   | nil => rfl
   | cons d ds ih =>
     have hd := hds d List.mem_cons_self
     have hstep : step t1 d = t1 := by
       cases d with
-      | startTask fr r =>
+      | startTask fr rr r =>
         cases fr with
-        | false => exact (dup_start_task_rerun_in_progress_noop t1 r h1).1
+        | false => exact (dup_start_task_rerun_in_progress_noop t1 rr r h1).1
         | true =>
           have : t1.state ≠ .idle := by
             intro e
@@ -309,17 +410,19 @@ theorem dup_start_task_rerun_noop (t : Task) (reset : Bool) (ds : List Delivery)
     exact ih (fun x hx => hds x (List.mem_cons_of_mem _ hx))
 
 example : let t : Task := { state := .error, actions := [⟨.error, true, 3, 1⟩], dispatched := 1, completions := 1 }
-    (run t [.startTask false false, .startTask false false, .startTask true false,
-            .startTask false true]).dispatched = 2 := by decide
+    (run t [.startTask false true false, .startTask false true false, .startTask true false false,
+            .startTask false true true, .startTask false false true]).dispatched = 2 := by decide
 
-/-- Over ARBITRARY later points the statement is still FALSE: when the restarted task has failed
-    again (state ERROR, every execution completed) before the duplicate arrives, `_run_existing` has
-    nothing to tell the stale request from a new rerun and starts the task once more (witness: an
-    ERROR task, one rerun request, its action fails, the same request again ⇒ a second attempt). -/
+/-- For an EXPLICIT rerun request (rerun=True) the statement over ARBITRARY later points is still
+    FALSE: when the restarted task has failed again (state ERROR, every execution completed) before the
+    duplicate arrives, `_run_existing` has nothing to tell the stale request from a new rerun and starts
+    the task once more (witness: an ERROR task, one rerun request, its action fails, the same request
+    again ⇒ a second attempt).  After 17f326b9 this is confined to rerun=True
+    (`dup_run_existing_noop` is the full theorem for rerun=False). -/
 theorem dup_start_task_rerun_full_fails :
     ¬ (∀ (t : Task) (reset : Bool) (ds : List Delivery),
-        let t' := run (step t (.startTask false reset)) ds
-        step t' (.startTask false reset) = t') := by
+        let t' := run (step t (.startTask false true reset)) ds
+        step t' (.startTask false true reset) = t') := by
   intro h
   have := h { state := .error, actions := [⟨.error, true, 3, 1⟩], dispatched := 1, completions := 1 }
     false [.result 1 .error 4]
@@ -327,68 +430,110 @@ theorem dup_start_task_rerun_full_fails :
   decide
 
 /-- the witness spelled out: one rerun request, its attempt fails, the request delivered again
-    dispatches a third action execution -/
+    dispatches a third action execution; the same history with rerun=False requests dispatches nothing -/
 example : (run { state := .error, actions := [⟨.error, true, 3, 1⟩], dispatched := 1, completions := 1 }
-    [.startTask false false, .result 1 .error 4, .startTask false false]).dispatched = 3 := by decide
+    [.startTask false true false, .result 1 .error 4, .startTask false true false]).dispatched = 3 ∧
+    (run { state := .error, actions := [⟨.error, true, 3, 1⟩], dispatched := 1, completions := 1 }
+    [.startTask false false false, .result 1 .error 4, .startTask false false false]).dispatched = 1 := by
+  decide
 
-/-- decidable description of the states in which a first_run=False request is a no-op -/
-def dupSafe (t : Task) : Bool := t.state == .success || inProgress t
+/-- decidable description of the states in which a first_run=False request with the given rerun flag is a
+    no-op: SUCCESS (refused), completed and not an explicit rerun (17f326b9), RUNNING with a live
+    execution (258aaaae) -/
+def dupSafe (t : Task) (rerun : Bool) : Bool :=
+  t.state == .success || (t.state.completed && !rerun) || inProgress t
 
-/-- What holds for first_run=False at an arbitrary later point: the duplicate changes nothing when the
-    task has SUCCEEDED (refused: MistralError, rolled back) or is still running the first delivery's
-    action; excluded inputs = `dupSafe t' = false` (the task failed / was cancelled again, or is
-    RUNNING with no live execution), and there the request does start one more attempt. -/
-theorem dup_start_task_rerun_partial (t' : Task) (reset : Bool) :
-    (dupSafe t' = true → step t' (.startTask false reset) = t') ∧
-    (dupSafe t' = false → (step t' (.startTask false reset)).dispatched = t'.dispatched + 1) := by
+/-- What holds for first_run=False at an arbitrary later point, both directions: the request changes
+    nothing when `dupSafe`; excluded inputs = `dupSafe t' rerun = false` (an explicit rerun of a task that
+    failed / was cancelled again; or a task that is IDLE or in a state without a live execution), and there
+    the request does start one more attempt. -/
+theorem dup_start_task_rerun_partial (t' : Task) (rerun reset : Bool) :
+    (dupSafe t' rerun = true → step t' (.startTask false rerun reset) = t') ∧
+    (dupSafe t' rerun = false →
+      (step t' (.startTask false rerun reset)).dispatched = t'.dispatched + 1) := by
   constructor
   · intro h
     by_cases hs : t'.state = .success
     · simp [step, runExisting, hs]
-    · have hp : inProgress t' = true := by
-        simp [dupSafe, hs] at h
-        exact h
-      exact (dup_start_task_rerun_in_progress_noop t' reset hp).1
+    · by_cases hc : (t'.state.completed && !rerun) = true
+      · simp [step, runExisting, hs, hc]
+      · have hp : inProgress t' = true := by
+          simp only [dupSafe, Bool.or_eq_true, beq_iff_eq] at h
+          rcases h with (h | h) | h
+          · exact absurd h hs
+          · exact absurd h hc
+          · exact h
+        exact (dup_start_task_rerun_in_progress_noop t' rerun reset hp).1
   · intro h
-    have hs : t'.state ≠ .success := by
-      intro e
-      simp [dupSafe, e] at h
-    have hp : inProgress t' = false := by
-      cases hq : inProgress t' with
-      | false => rfl
-      | true => simp [dupSafe, hq] at h
-    simp [step, runExisting, hs, hp, scheduleAction]
+    simp only [dupSafe, Bool.or_eq_false_iff, beq_eq_false_iff_ne] at h
+    obtain ⟨⟨hs, hc⟩, hp⟩ := h
+    simp [step, runExisting, hs, hc, hp, scheduleAction]
 
 example : let t : Task := { state := .error, actions := [⟨.error, true, 3, 1⟩], dispatched := 1, completions := 1 }
-    (run t [.startTask false false, .result 1 .ok 4]).state = .success ∧
-    dupSafe (run t [.startTask false false, .result 1 .ok 4]) = true ∧
-    dupSafe (run t [.startTask false false, .result 1 .error 4]) = false := by decide
+    (run t [.startTask false true false, .result 1 .ok 4]).state = .success ∧
+    dupSafe (run t [.startTask false true false, .result 1 .ok 4]) true = true ∧
+    dupSafe (run t [.startTask false true false, .result 1 .error 4]) true = false ∧
+    dupSafe (run t [.startTask false true false, .result 1 .error 4]) false = true := by decide
+
+/-- With the invariant the excluded inputs of a rerun=False request shrink to ONE reachable case: in every
+    state reachable from a fresh task a rerun=False request is a no-op unless the task is still IDLE
+    (the single delivery that starts it). -/
+theorem run_existing_reachable_noop_iff_not_idle (ds : List Delivery) (reset : Bool) :
+    (run fresh ds).state ≠ .idle ↔
+      step (run fresh ds) (.startTask false false reset) = run fresh ds := by
+  constructor
+  · intro hn
+    have hs : Started (run fresh ds) := by
+      cases run_startInv ds fresh startInv_fresh with
+      | inl hi => exact absurd hi hn
+      | inr hs => exact hs
+    exact (runExisting_of_started _ reset hs).1
+  · intro he hi
+    have : (step (run fresh ds) (.startTask false false reset)).state ≠ .idle := by
+      show (runExisting (run fresh ds) false reset).1.state ≠ .idle
+      exact started_ne_idle (runExisting_started _ false reset)
+    rw [he] at this
+    exact this hi
+
+example : (run fresh [.startTask true false false, .result 0 .cancel 3]).state ≠ .idle ∧
+    (step fresh (.startTask false false true)).dispatched = 1 := by decide
 
 /-- "no task or downstream task is created twice, and no action is dispatched twice" — invariant,
     init. -/
 theorem once_inv_init : OnceInv fresh := onceInv_fresh
 
-/-- ... step: preserved by every delivery that is not a first_run=False start request. -/
+/-- ... step: preserved by every delivery that is not an EXPLICIT rerun request (first_run=False,
+    rerun=True); the request re-queued on resume (first_run=False, rerun=False) is included since repo fix
+    17f326b9: it runs the task only while the task is still IDLE. -/
 theorem once_inv_step (t : Task) (d : Delivery) (hd : d.notRerun = true) (h : OnceInv t) :
     OnceInv (step t d) := step_onceInv t d hd h
 
 /-- ... reachable: for a task created by the engine and ANY sequence of deliveries of results
-    (genuine, duplicated, sub-workflow), checker passes and first-run start requests, in any order
-    and multiplicity: at most one action execution exists, at most one run_action request was
-    registered, and the completion logic that dispatches the downstream tasks ran at most once. -/
+    (genuine, duplicated, sub-workflow), checker passes, first-run start requests and the requests
+    re-queued on resume (first_run=False, rerun=False), in any order and multiplicity: at most one
+    action execution exists, at most one run_action request was registered, and the completion logic
+    that dispatches the downstream tasks ran at most once. -/
 theorem once_inv_reachable (ds : List Delivery) (hd : ∀ d ∈ ds, d.notRerun = true) :
     (run fresh ds).dispatched ≤ 1 ∧ (run fresh ds).actions.length ≤ 1 ∧
     (run fresh ds).completions ≤ 1 := by
   have h := run_onceInv ds fresh hd onceInv_fresh
   exact ⟨h.disp, by rw [h.len]; exact h.disp, h.comp⟩
 
-example : let t := run fresh [.startTask true false, .startTask true false, .result 0 .ok 5,
-                              .result 0 .ok 5, .startTask true false, .expiry]
+example : let t := run fresh [.startTask true false false, .startTask true false false, .result 0 .ok 5,
+                              .result 0 .ok 5, .startTask true false false, .expiry]
     t.dispatched = 1 ∧ t.completions = 1 ∧ t.state = .success := by decide
+
+/-- the resume request races the original one, the task fails, both are delivered again: one action,
+    one completion -/
+example : let t := run fresh [.startTask false false true, .startTask true false false, .result 0 .error 5,
+                              .startTask false false true, .startTask true false false, .expiry]
+    t.dispatched = 1 ∧ t.completions = 1 ∧ t.state = .error ∧
+    (∀ d ∈ [Delivery.startTask false false true, .startTask true false false, .result 0 .error 5],
+      d.notRerun = true) := by decide
 
 /-- A duplicated sub-workflow result (`wf_action=True`; WorkflowAction.complete is a no-op, the
     only guard is Task.complete's "already completed"): after the first delivery and any
-    deliveries that are not rerun requests, a further delivery changes nothing. -/
+    deliveries that are not explicit rerun requests (rerun=True), a further delivery changes nothing. -/
 theorem dup_subwf_result_noop (t : Task) (k : Dedup.Kind) (ds : List Delivery) (k' : Dedup.Kind)
     (hd : ∀ d ∈ ds, d.notRerun = true) :
     let t' := run (step t (.wfResult k)) ds
